@@ -513,9 +513,12 @@ class MolGrid(Grid):
 
         at_grids = []
         natoms = len(atcoords)
-        # List of int is created, so that indexing is possible in the for-loop.
+        # A single number stands for that degree (size) in every sector of every atom:
+        # atom i has len(r_sectors[i]) + 1 sectors.
         if isinstance(d_sectors, (int, np.integer)):
-            d_sectors = [d_sectors] * natoms
+            d_sectors = [[d_sectors] * (len(r_sec) + 1) for r_sec in r_sectors]
+        if isinstance(s_sectors, (int, np.integer)):
+            s_sectors = [[s_sectors] * (len(r_sec) + 1) for r_sec in r_sectors]
         # If s_sectors given d_sectors is set to [None] for all atoms.
         if s_sectors is not None:
             d_sectors = [None] * natoms
